@@ -12,6 +12,7 @@ import AidlVerif.Props.C20
 import AidlVerif.Props.C19Gen
 import AidlVerif.Driver.SerdeEnc
 import AidlVerif.Driver.Parse
+import AidlVerif.Spec.ParseLevel
 
 /-
   Model driver: one JSON case per input line, one JSON verdict per output line.
@@ -487,6 +488,121 @@ def opParse (prop : String) (j : Json) (extra : ParseCtx → Verdict → R Verdi
   let _ := prop
   return v
 
+def hasError (ds : List Diag) : Bool := ds.any fun d => d.kind == .error
+
+/-- multiset inclusion of diagnostics -/
+def diagsIncluded (a b : List Diag) : Bool := a.all fun d => a.count d ≤ b.count d
+
+structure SpanExp where
+  what : String
+  name : String
+  ns : Option Nat
+  ne : Option Nat
+  first : Nat
+  lastEnd : Nat
+  termEnd : Option Nat
+  annEnd : Option Nat
+
+def spanExp (j : Json) : R SpanExp := do
+  let on (k : String) : R (Option Nat) := do
+    match ← fld j k with
+    | .null => pure none
+    | x => some <$> nat x
+  pure { what := ← str (← fld j "what"), name := ← str (← fld j "name"), ns := ← on "ns", ne := ← on "ne",
+         first := ← nat (← fld j "first"), lastEnd := ← nat (← fld j "last_end"), termEnd := ← on "term_end",
+         annEnd := ← on "ann_end" }
+
+/-- C04: a construct's ranges against the generator's token table -/
+def spanOk (c : String × String × Range × Range) (e : SpanExp) : Bool :=
+  let (what, name, sym, full) := c
+  what == e.what
+  && (e.what != "type" && e.what != "arg" || true)
+  && (name == e.name || e.what == "arg")
+  -- the name range spans exactly the name as written
+  && (match e.ns, e.ne with
+      | some a, some b => sym.start.off == a && sym.stop.off == b
+      | _, _ => true)
+  -- the full range starts at the construct's first token, or (after annotations) anywhere in the
+  -- whitespace / comments that follow them
+  && (full.start.off == e.first || (match e.annEnd with
+        | some a => a ≤ full.start.off && full.start.off ≤ e.first
+        | none => false))
+  -- … and ends at its last token, optionally including the terminator
+  && (full.stop.off == e.lastEnd || some full.stop.off == e.termEnd)
+
+def parseExtras (prop : String) (c : ParseCtx) (v : Verdict) : R Verdict := do
+  let mut v := v
+  let j := c.case
+  let verdict := (j.getObjVal? "verdict").toOption.bind (·.getStr?.toOption) |>.getD "unknown"
+  let impl ← fld j "impl"
+  if prop == "C01" || prop == "all" then
+    let tagsOk := (impl.getObjVal? "tags_ok").toOption.bind (·.getBool?.toOption) |>.getD false
+    let idsOk := (c.out.map (·.id)) == ((c.files.map (·.1)).toArray.qsort (· < ·)).toList.eraseDups
+    -- model of validation on the model's own parse results == implementation
+    let modelStage1 := c.model.filterMap fun (_, r) => r.toOption
+    let mv := (validate HashOrder.id (sortById modelStage1)).toOption.map sortById
+    v := v.addCorr "C01" (mv == some c.out)
+    v := v.addSpec "C01" (tagsOk && idsOk)
+    let bytes := (c.files.map fun f => f.2.utf8ByteSize).foldl (· + ·) 0
+    v := { v with nontrivial := bytes > 0,
+                  dist := bump (bump v.dist s!"files={c.files.length}") s!"bytes~{if bytes < 100 then 0 else if bytes < 1000 then 100 else if bytes < 10000 then 1000 else 10000}" }
+  if prop == "C02" || prop == "all" then
+    match (j.getObjVal? "expect_sx").toOption.bind (·.getStr?.toOption) with
+    | some sx =>
+      let ok := c.stage1.all fun fr => match fr.ast with
+        | some a => Spec.PL.sxAidl a == sx
+        | none => false
+      v := v.addSpec "C02" ok
+      if !ok then
+        v := v.addDetail "expected_sx" (Json.str sx)
+        v := v.addDetail "got_sx" (Json.str ((c.stage1.head?.bind (·.ast)).map Spec.PL.sxAidl |>.getD "<no tree>"))
+      v := { v with nontrivial := true, dist := bump v.dist s!"sx_len~{min (sx.length / 200 * 200) 2000}" }
+    | none => pure ()
+  if prop == "C03" || prop == "all" then
+    let s1 := c.stage1
+    let wfOk := verdict != "wf" || s1.all fun fr => fr.ast.isSome && fr.diags.isEmpty
+    let badOk := verdict != "bad" || s1.all fun fr => hasError fr.diags
+    let neverSilent := (s1 ++ c.out).all fun fr => fr.ast.isSome || hasError fr.diags
+    let kept := (zipById s1 c.out).all fun (a, b) => diagsIncluded a.diags b.diags
+    let names := (s1 ++ c.out).all fun fr => match fr.ast with | some a => Spec.PL.noKeywordNames a | none => true
+    v := v.addSpec "C03" (wfOk && badOk && neverSilent && kept && names)
+    if !(wfOk && badOk && neverSilent && kept && names) then
+      v := v.addDetail "C03" (Json.mkObj [("wf", wfOk), ("bad", badOk), ("never_silent", neverSilent), ("kept", kept), ("names", names)])
+    let how := (j.getObjVal? "how").toOption.bind (·.getStr?.toOption) |>.getD verdict
+    let kind := if s1.all (fun fr => fr.ast.isSome && fr.diags.isEmpty) then "accepted" else if s1.all (·.ast.isSome) then "recovered" else "rejected"
+    v := { v with nontrivial := true, dist := bump (bump v.dist how) kind }
+  if prop == "C04" || prop == "all" then
+    let lcOf (id : String) := (c.lcs.lookup id).getD []
+    let wf := (c.stage1 ++ c.out).all fun fr =>
+      let lc := lcOf fr.id
+      (Spec.PL.diagRanges fr.diags).all (Spec.PL.rangeOk lc)
+      && (match fr.ast with
+          | some a => (Spec.PL.allRanges a).all (Spec.PL.rangeOk lc) && Spec.PL.nested a
+          | none => true)
+    let mut exact := true
+    match (j.getObjVal? "expect_spans").toOption with
+    | some sj =>
+      let spans ← list spanExp sj
+      for fr in c.stage1 do
+        match fr.ast with
+        | some a =>
+          let cs := Spec.PL.constructs a
+          if cs.length != spans.length then exact := false
+          else
+            for (cst, e) in cs.zip spans do
+              if !(spanOk cst e) then
+                exact := false
+                if !(v.detail.any (·.1 == "span")) then
+                  v := v.addDetail "span" (Json.mkObj [("what", e.what), ("name", e.name),
+                    ("sym", encRange cst.2.2.1), ("full", encRange cst.2.2.2), ("first", e.first), ("last_end", e.lastEnd)])
+        | none => exact := false
+    | none => pure ()
+    v := v.addSpec "C04" (wf && exact)
+    if !wf then v := v.addDetail "C04" (Json.str "ill-formed or badly nested range")
+    let nr := (c.stage1.map fun fr => (fr.ast.map Spec.PL.allRanges |>.getD []).length + (Spec.PL.diagRanges fr.diags).length).foldl (· + ·) 0
+    v := { v with nontrivial := nr > 0, dist := bump v.dist s!"ranges~{min (nr / 20 * 20) 200}" }
+  return v
+
 def handle (prop : String) (line : String) : Json :=
   match Json.parse line with
   | .error e => Json.mkObj [("error", s!"json: {e}")]
@@ -502,7 +618,7 @@ def handle (prop : String) (line : String) : Json :=
       | "perturb" => opPerturb j
       | "expected" => opExpected j
       | "serde" => opSerde j
-      | "parse" => opParse prop j (fun _ v => pure v)
+      | "parse" => opParse prop j (parseExtras prop)
       | _ => throw s!"unknown op {op}" : R Verdict) with
     | .ok v => v.toJson case
     | .error e => Json.mkObj [("case", case), ("error", e)]
